@@ -18,9 +18,12 @@ def conds(tier):
                     budget=120, family="F-TREE(3,2,2) default priority (most items)", encodes=core.ENC_SCHED))
     out.append(Cond("steps", core.mk_steps(P, 2, 3), core.steps_params(2, 3), pin=2, budget=120,
                     family="F-STEPS(2,3)", encodes=core.ENC_SCHED))
+    out.append(core.seq_cond("seq", P, 3, 2))
     out.append(Cond("reentry", core.mk_reentry(PR), core.REENTRY_PARAMS, pin=3, budget=150,
                     family="F-REENTRY", encodes=core.ENC_SCHED))
     out.append(core.fault_cond("fault", PR, [4], g0modes=2, g1modes=3, pin=4, budget=200))
+    out.append(core.cancel_cond("cancel", PR))
+    out.append(core.dagsync_cond("dagsync", PR))
     if not q:
         out.append(Cond("tree3k", core.mk_tree(P, 3, 2, 3), core.tree_params(3, 2, 3), pin=3, budget=900,
                         family="F-TREE(3,2,3)", encodes=core.ENC_SCHED))
